@@ -1,9 +1,27 @@
 from vlib.pipeline import Group
 LIB = ["lib_mpq.c", "allocrus.c"]
 MODEL = ["@model/gmp_model.c", "@model/io_model.c", "@model/globals_mpq.c"]
+MAPCAP = "index maps (structmap/rowmap) capped at 64 entries because the universal in-range fact needs a constant-range quantifier; loops closed by inductive invariants, no unwinding"
+
+
+def lib(name, props, loops=None, nloops=None, harness="lib_simple.c", fn=None, **kw):
+    fn = fn or name
+    return Group("lib/" + name, harness, tus=LIB, model=MODEL, defines=["FN_" + name] + kw.pop("defines", []),
+                 enforce=["mpq_ILLlib_%s/contract_ILLlib_%s" % (fn, fn)], props=props,
+                 loops=loops, expect_loops=nloops, **kw)
+
 
 GROUPS = [
-    Group("lib/chgbnd", "lib_chgbnd.c", tus=LIB, model=MODEL,
-          enforce=["mpq_ILLlib_chgbnd/contract_ILLlib_chgbnd"], props=["C06", "C07", "C17"],
-          note="single-entry bound edit: rejection of bad index/selector with empty frame; stored value"),
+    Group("lib/chgbnd", "lib_chgbnd.c", tus=LIB, model=MODEL, enforce=["mpq_ILLlib_chgbnd/contract_ILLlib_chgbnd"],
+          props=["C06", "C07", "C17"]),
+    lib("getbnd", ["C06", "C07", "C17"]),
+    lib("chgobj", ["C06", "C07", "C17"]),
+    lib("chgrhs", ["C06", "C07", "C17"]),
+    lib("getrhs", ["C06", "C17"], loops="lib.json", nloops=1),
+    lib("getsenses", ["C06", "C17"], loops="lib.json", nloops=1),
+    lib("getintflags", ["C06", "C17"], loops="lib.json", nloops=2),
+    lib("getobj", ["C06", "C17"], loops="lib.json", nloops=1, kind="bounded", bound=MAPCAP),
+    lib("getbnds", ["C06", "C17"], loops="lib.json", nloops=1, kind="bounded", bound=MAPCAP),
+    lib("getobj_list", ["C06", "C07", "C17"], loops="lib.json", nloops=1, kind="bounded", bound=MAPCAP.replace("64", "16"), defines=["QSV_MAPCAP=16"]),
+    lib("getbnds_list", ["C06", "C07", "C17"], loops="lib.json", nloops=1, kind="bounded", bound=MAPCAP.replace("64", "16"), defines=["QSV_MAPCAP=16"]),
 ]
